@@ -71,7 +71,10 @@ func (g *gate) signal() {
 // waitTimeout waits for a signal for at most ms milliseconds.
 //
 //go:norace
-func (g *gate) waitTimeout(ms int) bool {
+func (g *gate) waitTimeout(ms int) bool { return g.waitTimeoutUs(ms * 1000) }
+
+//go:norace
+func (g *gate) waitTimeoutUs(us int) bool {
 	type pollfd struct {
 		fd      int32
 		events  int16
@@ -79,7 +82,7 @@ func (g *gate) waitTimeout(ms int) bool {
 	}
 	for {
 		p := pollfd{fd: int32(g.r), events: 1} // POLLIN
-		ts := syscall.Timespec{Sec: int64(ms / 1000), Nsec: int64(ms%1000) * 1e6}
+		ts := syscall.Timespec{Sec: int64(us / 1000000), Nsec: int64(us%1000000) * 1e3}
 		n, _, e := syscall.Syscall6(syscall.SYS_PPOLL, uintptr(unsafe.Pointer(&p)), 1, uintptr(unsafe.Pointer(&ts)), 0, 0, 0)
 		if e == syscall.EINTR {
 			continue
@@ -201,23 +204,96 @@ const (
 	stReady = iota
 	stWantLock
 	stDone
+	stWantRecv // a consumer asks for the next element of a stream
+	stChanSend // a producer is parked inside the library, sending an element its consumer has not taken yet
 )
 
+// stream: the channel of one streaming Iterator call. The library sends on it from the producer task;
+// nothing in the library announces that send, so the scheduler finds the producer parked in it by looking
+// at its goroutine. Receives are performed by the scheduler itself on behalf of the consumer task, with
+// the producer made the running task first: at any moment one task runs, as everywhere in this engine.
+type stream struct {
+	ch       chan iface.IPFSLogEntry
+	prod     *task
+	finished bool // the producer's Iterator call has returned (or its task was unwound)
+}
+
+//go:norace
+func streamBegin(t *task, st *stream) { st.prod = t; t.out = st; t.streaming = true }
+
+//go:norace
+func streamEnd(t *task, st *stream) { t.streaming = false; st.finished = true }
+
+// e1Recv: the consumer's receive. ok=false: the stream is over (closed, or given up by its producer).
+//
+//go:norace
+func e1Recv(st *stream) (iface.IPFSLogEntry, bool) {
+	t := curTask()
+	if t == nil {
+		panic(&harnessError{"e1Recv outside a task"})
+	}
+	t.state = stWantRecv
+	t.site = "recv"
+	t.stream = st
+	S.back.signal()
+	t.g.wait()
+	if t.abort {
+		runtime.Goexit()
+	}
+	// the entry itself travels over a real channel: whoever receives from a Go channel is ordered after the
+	// send, and the race detector must see the consumer ordered after the producer exactly as it would be
+	// had it received from the stream with its own hands
+	it := <-t.recvCh
+	return it.v, it.ok
+}
+
+type recvItem struct {
+	v  iface.IPFSLogEntry
+	ok bool
+}
+
+//go:norace
+func (s *sched) recvReady(t *task) bool {
+	st := t.stream
+	return len(st.ch) > 0 || st.finished || (st.prod != nil && st.prod.state == stChanSend)
+}
+
+// taskInChanSend: the goroutine of the task is parked in a channel send below IPFSLog.Iterator.
+//
+//go:norace
+func taskInChanSend(goid int64) bool {
+	n := runtime.Stack(stackBuf, true)
+	for n == len(stackBuf) {
+		stackBuf = make([]byte, 2*len(stackBuf))
+		n = runtime.Stack(stackBuf, true)
+	}
+	for _, g := range parseStacks(stackBuf[:n]) {
+		if g.id == goid {
+			return g.state == "chan send" && hasFrame(g, "go-ipfs-log.(*IPFSLog).Iterator")
+		}
+	}
+	return false
+}
+
 type task struct {
-	id       int
-	g        *gate
-	goid     int64
-	state    int
-	site     string
-	mu       *sync.RWMutex
-	w        bool
-	failedAt int
-	fn       func(t *task)
-	abort    bool
-	pending  bool // has asked for its lock and not got it yet
-	pan      *fetchPanic
-	prio     int
-	stuck    bool // blocked for good inside the library (verdict reached; its goroutine is abandoned)
+	id        int
+	g         *gate
+	goid      int64
+	state     int
+	site      string
+	mu        *sync.RWMutex
+	w         bool
+	failedAt  int
+	fn        func(t *task)
+	abort     bool
+	pending   bool // has asked for its lock and not got it yet
+	pan       *fetchPanic
+	prio      int
+	stuck     bool    // blocked for good inside the library (verdict reached; its goroutine is abandoned)
+	streaming bool    // inside a streaming Iterator call
+	stream    *stream // consumer: the stream it receives from
+	out       *stream // producer: the stream it last sent on
+	recvCh    chan recvItem
 	// task-local results
 	ops     []*opRec
 	blocks  []ipld.Node
@@ -457,6 +533,9 @@ func (s *sched) run() {
 			if t.state == stWantLock && t.failedAt == s.epoch {
 				continue
 			}
+			if t.state == stChanSend || (t.state == stWantRecv && !s.recvReady(t)) {
+				continue // (a parked producer moves on only through its consumer's receive)
+			}
 			el = append(el, t)
 		}
 		if live == 0 {
@@ -476,21 +555,18 @@ func (s *sched) run() {
 			s.deadlock = true
 			msg := ""
 			for _, t := range s.tasks {
-				if t.state != stDone {
+				switch t.state {
+				case stDone:
+				case stChanSend:
+					msg += fmt.Sprintf("%s is inside Iterator, waiting for its consumer to take the next entry; ", t.name)
+				case stWantRecv:
+					msg += fmt.Sprintf("%s waits for the next entry of the stream; ", t.name)
+				default:
 					msg += fmt.Sprintf("%s waits for %s(%s,write=%v); ", t.name, s.lockName(t.mu), t.site, t.w)
 				}
 			}
 			s.deadMsg = msg
-			// release the parked tasks so that their deferred unlocks run and no thread stays blocked
-			for _, t := range s.tasks {
-				if t.state != stDone {
-					t.abort = true
-					s.cur = t
-					t.g.signal()
-					s.back.wait()
-					s.cur = nil
-				}
-			}
+			s.releaseAll()
 			return
 		}
 		t := s.pick(el)
@@ -501,35 +577,33 @@ func (s *sched) run() {
 			}
 		}
 		s.lastIdx = t.id
+		if t.state == stWantRecv {
+			// the receive, done here on behalf of the consumer; a producer parked in the send runs on from it
+			st := t.stream
+			p := st.prod
+			wake := p != nil && p.state == stChanSend
+			if wake {
+				p.state = stReady
+				s.cur = p
+			}
+			select {
+			case v, ok := <-st.ch:
+				t.recvCh <- recvItem{v, ok}
+			default:
+				t.recvCh <- recvItem{nil, false}
+			}
+			if wake {
+				if !s.await(p) {
+					return
+				}
+				s.cur = nil
+				s.r.Logf("  %s hands an entry to %s", p.name, t.name)
+			}
+			t.state = stReady
+		}
 		s.cur = t
 		t.g.signal()
-		for seen := 0; !s.back.waitTimeout(1500); {
-			// the task has neither finished nor reached a scheduling point: it is computing, or it is blocked
-			// inside the library on something that is not one of the hooked locks
-			where, stuck := taskBlockedForGood(t.goid)
-			if !stuck {
-				seen = 0
-				continue
-			}
-			if seen++; seen < 3 {
-				continue
-			}
-			s.deadlock = true
-			s.deadMsg = fmt.Sprintf("%s never returns: blocked in %s with no goroutine left that could wake it; ", t.name, where)
-			Tainted.Store(true) // that goroutine (and what it holds) cannot be released
-			t.stuck = true
-			t.state = stDone
-			s.wg.Done()
-			s.cur = nil
-			for _, o := range s.tasks {
-				if o.state != stDone {
-					o.abort = true
-					s.cur = o
-					o.g.signal()
-					s.back.wait()
-					s.cur = nil
-				}
-			}
+		if !s.await(t) {
 			return
 		}
 		s.cur = nil
@@ -544,6 +618,88 @@ func (s *sched) run() {
 			} else {
 				s.r.Logf("  %s -> %s", t.name, t.site)
 			}
+		}
+	}
+}
+
+// await waits until the running task comes back: at a scheduling point, finished, or (a streaming producer)
+// parked in the send to its consumer. false: the task is blocked for good and the run is over.
+//
+//go:norace
+func (s *sched) await(t *task) bool {
+	waited := 0
+	for seen := 0; ; {
+		step := 1500000
+		if t.streaming {
+			step = 150 // (microseconds: the producer is back, or parked in its send, almost at once)
+		}
+		if s.back.waitTimeoutUs(step) {
+			return true
+		}
+		if t.streaming && taskInChanSend(t.goid) {
+			t.state = stChanSend
+			t.site = "Iterator:send"
+			return true
+		}
+		if waited += step; waited < 1500000 {
+			continue
+		}
+		waited = 0
+		// the task has neither finished nor reached a scheduling point: it is computing, or it is blocked
+		// inside the library on something that is not one of the hooked locks
+		where, stuck := taskBlockedForGood(t.goid)
+		if !stuck {
+			seen = 0
+			continue
+		}
+		if seen++; seen < 3 {
+			continue
+		}
+		s.deadlock = true
+		s.deadMsg = fmt.Sprintf("%s never returns: blocked in %s with no goroutine left that could wake it; ", t.name, where)
+		Tainted.Store(true) // that goroutine (and what it holds) cannot be released
+		t.stuck = true
+		t.state = stDone
+		s.wg.Done()
+		s.cur = nil
+		s.releaseAll()
+		return false
+	}
+}
+
+// releaseAll unwinds every unfinished task so that deferred unlocks run and no thread stays blocked: a
+// producer parked in a send has its stream drained, tasks parked at a scheduling point leave from there.
+//
+//go:norace
+func (s *sched) releaseAll() {
+	for _, p := range s.tasks {
+		if p.state != stChanSend {
+			continue
+		}
+		p.abort = true
+		p.state = stReady
+		s.cur = p
+		for {
+			select {
+			case <-p.out.ch:
+			default:
+			}
+			if s.back.waitTimeout(1) {
+				if p.state == stDone {
+					break
+				}
+				p.g.signal() // it came to a scheduling point: it leaves from there
+			}
+		}
+		s.cur = nil
+	}
+	for _, o := range s.tasks {
+		if o.state != stDone {
+			o.abort = true
+			s.cur = o
+			o.g.signal()
+			s.back.wait()
+			s.cur = nil
 		}
 	}
 }
@@ -569,7 +725,7 @@ func RunTasks(r *Run, names []string, fns []func(t *task), lockNames map[*sync.R
 		}
 	}
 	for i, fn := range fns {
-		t := &task{id: i, g: newGate(), fn: fn, name: names[i], prio: 1000 - i}
+		t := &task{id: i, g: newGate(), fn: fn, name: names[i], prio: 1000 - i, recvCh: make(chan recvItem, 1)}
 		if s.policy == 1 {
 			t.prio = r.Choose("pct-prio", 1000)
 		}
